@@ -2,8 +2,8 @@
 """C04 — growth, pressure, division trigger, 3-sigma clamp: the real update_target_volume,
 update_pressure, is_ready_to_divide (through the vtable of each of the five cell classes),
 is_below_min_vol and initialize_random_properties run in irsym with every scalar symbolic; z3
-decides the closed-form laws on every feasible path. (The removal statement of
-solver::run_iteration is decided in the population-level check C08/C04b.)"""
+decides the closed-form laws on every feasible path. The removal statement of solver::run_iteration is decided by the removal part (real solver,
+symbolic minimum volumes)."""
 import math
 from fractions import Fraction
 import os
@@ -174,6 +174,7 @@ def main(chk):
         else:
             chk.ob(nm, st, core, dt_, sample={'obligation': nm, 'status': st} if len(chk.samples) < 8 else None)
     native.close()
+    removal_part(chk, quick)
     chk.finish(level='other', explanation=(
         'update_target_volume, update_pressure, is_ready_to_divide (virtual, five classes), is_below_min_vol and initialize_random_properties are '
         'executed in irsym with V, V_target, K, P_max, growth rate, dt, V_min, V_div, mu, sigma symbolic (P_max and V_div also +inf). On every feasible '
@@ -285,6 +286,118 @@ def replay_mesh(native, info, model, nm):
         if abs(p - exp_p) > 1e-6 * max(1, abs(exp_p)): probs.append('pressure %r, law on the current mesh gives %r' % (p, exp_p))
     if abs(v_now - mv) > 1e-9 * scale and bool(below) != (v_now < mv): probs.append('below_min=%d but V(now)=%r Vmin=%r' % (below, v_now, mv))
     return {'reproduced': bool(probs), 'what': '; '.join(probs) or 'native agrees with the law', 'din': din, 'iin': iin}
+
+def parse_dumps(iout, dout, contact=1):
+    """all population dumps of h_sim: list of {cell id: (volume, target volume, local id)}"""
+    ip = 0; dp = 0; dumps = []
+    while ip < len(iout):
+        nc = iout[ip]; ip += 1
+        cells = {}
+        for c in range(nc):
+            cid, lid, typ, nn, nf = iout[ip:ip + 5]; ip += 5
+            sc = dout[dp:dp + 4]; dp += 4
+            for k in range(nn):
+                ip += 1; dp += 3
+                if contact == 1: ip += 3
+                ip += 1
+            ip += 7 * nf
+            cells[cid] = (sc[0], sc[1], lid)
+        dumps.append(cells)
+    return dumps
+
+def removal_problems(dumps, ref, mv):
+    """dumps[k+1] = population after iteration k; ref[k+1][i][0] = volume of cell i used by iteration k (from a run without removals)"""
+    probs = []
+    for k in range(1, len(dumps)):
+        for i in ref[0]:
+            below = [j for j in range(1, k + 1) if ref[j][i][0] < mv[i]]
+            present = i in dumps[k]
+            if below and present: probs.append('cell %d is still in the population after iteration %d although its volume %r was below its minimum volume %r in iteration %d' % (i, k - 1, ref[below[0]][i][0], mv[i], below[0] - 1))
+            if not below and not present: probs.append('cell %d was removed by iteration %d although its volume never fell below its minimum volume %r (volumes %r)' % (i, k - 1, mv[i], [ref[j][i][0] for j in range(1, k + 1)]))
+    return probs
+
+def removal_part(chk, quick):
+    """removal statement of solver::run_iteration: the real solver (constructor + 3 iterations, I/O and division stubbed) on three cells that do not
+    interact, with the minimum volume of every cell type symbolic (below the target volume, so that nothing else depends on it). The volumes are
+    concrete; which cell falls below its minimum in which iteration is decided by the solver, every combination is a path."""
+    from irsym import envstubs
+    ir = build.build_ir(['h_sim.cpp']); nat = build.build_native(['h_sim.cpp'])
+    native = api.Native(nat)
+    ov = {}
+    ov.update(envstubs.fs_stubs()); ov.update(envstubs.writer_stubs()); ov.update(envstubs.divide_stub())
+    def setup(it): it.strict_undef = False
+    nc, nsteps = 3, 3
+    def inputs(mv):
+        din = [0.001, 1.0, 0.3, 0.25, 0.25, 0.01, 1.0, 0, 0, 0]
+        for c in range(nc): din += [1.0 + 0.1 * c, 3.0 * c, 0.05 * c, 0.02 * c, mv[c], 1e9, 0.0]
+        iin = [nc, nsteps] + [0, 1, 0][:nc] + [0, 2, 3][:nc] + [3] * nc + [0] * (nsteps * nc)
+        return din, iin
+    chk.assumptions += ['removal part: three cells far apart (no contacts), growth rate 0, 0 < V_min < initial target volume of the cell (the minimum volume then enters nothing but the removal test); '
+                        'divisions, file output and the file system are stubbed']
+    # reference: nothing is removed
+    sc = api.Session(ir, mode='ieee', overrides=ov, setup=setup)
+    din0, iin0 = inputs([1e-9] * nc)
+    r0 = sc.run('h_sim', din0, iin0); q0 = native.call('h_sim', din0, iin0)
+    chk.validation['programs'] += 1; chk.validation['inputs'] += 1
+    if r0.status != 'ok' or q0.get('status') != 0 or r0.iout != q0['i'] or not all(api.same_double(a, b) for a, b in zip(r0.dout, q0['d'])):
+        chk.validation['mismatches'] += 1; chk.note('removal part: validation mismatch on the reference run %r' % ((r0.status, getattr(r0, 'error', None)),))
+        native.close(); return
+    chk.functions |= sc.functions_called
+    ref = parse_dumps(r0.iout, r0.dout)
+    if len(ref) != nsteps + 1 or any(len(d) != nc for d in ref):
+        chk.fail_closed.append('removal part: reference run lost a cell'); native.close(); return
+    ids = sorted(ref[0])
+    MV = {i: S.var('vmin%d' % i) for i in ids}
+    pre = []
+    for i in ids:
+        pre += [S.cmp('gt', MV[i], S.ZERO), S.cmp('lt', MV[i], S.R(ref[0][i][1]))]
+    z = SV.Z3Ctx()
+    sess = api.Session(ir, mode='real', overrides=ov, setup=setup)
+    din, iin = inputs([MV[i] for i in ids])
+    ctl, res = sess.explore('h_sim', din, iin, assumptions=pre, zctx=z, max_paths=200, branch_timeout_ms=5000)
+    chk.absorb(session=sess, ctl=ctl)
+    if not ctl.exhausted: chk.fail_closed.append('removal part: path budget exhausted')
+    outcomes = set()
+    for (tr, pc, r) in res:
+        st = getattr(r, 'status', None)
+        if st == 'pathend': continue
+        if st != 'ok':
+            chk.fail_closed.append('removal part: path ended with %s %r' % (st, getattr(r, 'error', None))); continue
+        try:
+            dumps = parse_dumps([int(v) for v in r.iout], r.dout)
+        except Exception as e:
+            chk.fail_closed.append('removal part: dump not concrete (%r)' % (e,)); continue
+        sig = tuple(tuple(sorted(d)) for d in dumps)
+        outcomes.add(sig)
+        name = 'removal/populations after the iterations %r' % ([list(x) for x in sig[1:]],)
+        claim = S.TRUE
+        for k in range(1, len(dumps)):
+            for i in ids:
+                conds = [S.cmp('lt', S.R(ref[j][i][0]), MV[i]) for j in range(1, k + 1)]
+                anyb = S.FALSE
+                for c_ in conds: anyb = S.bor(anyb, c_)
+                claim = S.band(claim, S.bnot(anyb) if i in dumps[k] else anyb)
+        st1, m1 = SV.prove(z, list(pc), claim, 20000)
+        chk.queries += 1
+        # survivors evolve exactly as in the reference run (no interaction) and keep positions = list indices
+        same = all(dumps[k][i][0] == ref[k][i][0] for k in range(len(dumps)) for i in dumps[k]) and all(sorted(v[2] for v in d.values()) == list(range(len(d))) for d in dumps)
+        if not same: chk.fail_closed.append(name + ': a surviving cell differs from the reference run')
+        if st1 == 'violated':
+            mv = {i: float(Fraction(m1.get('vmin%d' % i, 1e-9))) if m1 else 1e-9 for i in ids}
+            dn, inn = inputs([mv[i] for i in ids])
+            q = native.call('h_sim', dn, inn)
+            probs = []
+            if q.get('status') == 0:
+                probs = removal_problems(parse_dumps(q['i'], q['d']), parse_dumps(q0['i'], q0['d']), mv)
+            rep = {'din': dn, 'iin': inn, 'minimum volumes': mv, 'problems': probs[:6], 'how': 'harness h_sim (/verif/harness/h_sim.cpp), native build: real solver on three non-interacting cells, population dumps after every iteration compared with the volumes of a run without removals'}
+            chk.ob(name + '/a cell is in the population after iteration k iff its volume was never below V_min up to k', 'violated' if probs else 'unknown', True, 0, rep)
+            if probs: chk.violation('C04/removal/cells below the minimum volume are removed at the end of that iteration and only those', '%s: %s' % (name, probs[0]), rep)
+        else:
+            chk.ob(name + '/a cell is in the population after iteration k iff its volume was never below V_min up to k', st1, True, 0)
+    if len(outcomes) < 4: chk.fail_closed.append('removal part: only %d different removal histories were reached' % len(outcomes))
+    chk.witnesses += len(outcomes)
+    chk.functions |= sess.functions_called
+    native.close()
 
 def replay(native, info, model, nm):
     from fractions import Fraction
